@@ -63,6 +63,12 @@ THEOREMS = [
     'C17_latopt_exact',
     'C17_latopt_wellformed_accepted',
     'C17_latopt_malformed_rejected',
+    'C17_keyword_loop_unfold',
+    'C17_inline_trcl_m_rejected_any',
+    'C17_inline_fill_m_rejected_any',
+    'C17_fill_array_short_rejected_any',
+    'C17_lattice_no_opt_rejected_any',
+    'C17_arrives_options',
     'C17_finished_run_is_clean',
 ]
 TRUSTED = [
